@@ -98,6 +98,18 @@ func c11Config(p *Prog, c *Check) {
 		fi := p.Info(fn)
 		for _, ci := range callsTo(fn, "AddVote") {
 			call, isCall := ci.(*ssa.Call)
+			if isCall {
+				// a DKG result vote is recorded only for a keyper of the voted eon's own configuration
+				rb := Binds{}
+				if ParsePat("$d.SuccessVoting").Match(stripAddr(fi.T(call.Common().Args[0])), rb) {
+					nv++
+					c.Analysed(shortFn(fn))
+					rb["sender"] = fi.T(call.Common().Args[1])
+					c.Guard(p, rule+".vote", "AddVote(SuccessVoting)@"+shortFn(fn), call, "SuccessVoting.AddVote(sender, success)", rb,
+						"IsKeyper($d.Config, $sender) == true")
+					continue
+				}
+			}
 			if !isCall || !ParsePat("_.ConfigVoting").Match(stripAddr(fi.T(call.Common().Args[0])), Binds{}) {
 				continue
 			}
@@ -107,7 +119,7 @@ func c11Config(p *Prog, c *Check) {
 				"KeyperIndex(LastConfig(_), $sender)#1 == true")
 		}
 	}
-	c.Floor(rule+".vote", nv, 1)
+	c.Floor(rule+".vote", nv, 2)
 	// checkConfig summary
 	cc, err := p.Func("app.ShutterApp.checkConfig")
 	if c.Must(err) {
@@ -630,26 +642,52 @@ func c11Nonce(p *Prog, c *Check, rule string) {
 		return
 	}
 	c.Analysed(shortFn(fn))
-	fi := p.Info(fn)
-	dm := callsTo(fn, "(*app.ShutterApp).deliverMessage")
+	dtx := fn
+	// the delivery: in DeliverTx itself, or in a helper only DeliverTx reaches (guards are then lifted
+	// to the call sites by the GUARD template)
+	type dsite struct {
+		fn   *ssa.Function
+		call *ssa.Call
+	}
+	var dm []dsite
+	for _, g := range p.CG().Reachable([]*ssa.Function{dtx}, func(f *ssa.Function) bool {
+		return !inModule(f) || isGeneratedFile(p.fileOf(f)) || fnName(origin(f)) == "deliverMessage"
+	}) {
+		for _, ci := range callsTo(g, "(*app.ShutterApp).deliverMessage") {
+			if call, ok := ci.(*ssa.Call); ok {
+				dm = append(dm, dsite{g, call})
+			}
+		}
+	}
 	c.Floor(rule, len(dm), 1)
-	for i, ci := range dm {
-		call := ci.(*ssa.Call)
+	scope := map[*ssa.Function]bool{}
+	for _, g := range p.CG().Reachable([]*ssa.Function{dtx}, func(f *ssa.Function) bool { return !inModule(f) }) {
+		scope[origin(g)] = true
+	}
+	for i, ds := range dm {
+		call := ds.call
+		fn := ds.fn
+		fi := p.Info(fn)
+		if fn != dtx {
+			c.Analysed(shortFn(fn))
+		}
 		b := Binds{}
 		key := fmt.Sprintf("DeliverTx:deliverMessage#%d", i+1)
+		guardLiftScope = scope
 		if !c.Guard(p, rule, key, call, "deliverMessage(msg.Msg, signer)", b,
 			"decodeTx(...)#2 == nil",
 			"decodeTx(...)#1.ChainId == _.ChainID",
 			"Check(_.NonceTracker, decodeTx(...)#0, decodeTx(...)#1.RandomNonce) == true") {
+			guardLiftScope = nil
 			continue
 		}
-		okArgs := ParsePat("decodeTx(...)#1.Msg").Match(fi.T(call.Common().Args[1]), Binds{}) && ParsePat("decodeTx(...)#0").Match(fi.T(call.Common().Args[2]), Binds{})
+		okArgs := p.termMatchesLifted(fn, fi.T(call.Common().Args[1]), "decodeTx(...)#1.Msg", 0) && p.termMatchesLifted(fn, fi.T(call.Common().Args[2]), "decodeTx(...)#0", 0)
 		c.Result(okArgs, rule, key+":args", p.siteOf(call), shortFn(fn), "delivered message and sender", "the delivered message/sender are not the decoded ones", "decodeTx #1.Msg, #0")
 		// nonce consumed before delivery with the same pair
 		okAdd := false
 		for _, ac := range callsTo(fn, "(*app.NonceTracker).Add") {
-			if instrDominates(ac, call) && ParsePat("decodeTx(...)#0").Match(fi.T(ac.Common().Args[1]), Binds{}) && ParsePat("decodeTx(...)#1.RandomNonce").Match(fi.T(ac.Common().Args[2]), Binds{}) {
-				if _, has := findAtom(fi.FactsAt(ac), "Check(_.NonceTracker, decodeTx(...)#0, decodeTx(...)#1.RandomNonce) == true", Binds{}); has {
+			if instrDominates(ac, call) && p.termMatchesLifted(fn, fi.T(ac.Common().Args[1]), "decodeTx(...)#0", 0) && p.termMatchesLifted(fn, fi.T(ac.Common().Args[2]), "decodeTx(...)#1.RandomNonce", 0) {
+				if okG, _, _, _ := p.guardLift(ac, Binds{}, []string{"Check(_.NonceTracker, decodeTx(...)#0, decodeTx(...)#1.RandomNonce) == true"}, 0); okG {
 					okAdd = true
 				}
 			}
@@ -727,6 +765,7 @@ func c11Nonce(p *Prog, c *Check, rule string) {
 				}
 			}
 		}
+		guardLiftScope = nil
 		c.Result(okAdd, rule, key+":nonce-add", p.siteOf(call), shortFn(fn), "NonceTracker.Add before delivery", "the (sender, nonce) pair is not recorded before the message executes (it could execute twice)", "Add(signer, nonce) dominates, after Check")
 	}
 }
@@ -1328,9 +1367,25 @@ func c13Height(p *Prog, c *Check) {
 	// Commit persists after EndBlock's write by ABCI order; within Commit nothing writes state after maybePersistToDisk
 	cm, err := p.Func("app.ShutterApp.Commit")
 	if c.Must(err) {
+		// the call through which Commit writes the state file (directly or through a helper)
 		var persist ssa.Instruction
-		for _, ci := range callsTo(cm, "maybePersistToDisk") {
-			persist = ci
+		pdf, _ := p.Func("app.ShutterApp.PersistToDisk")
+		for _, b := range cm.Blocks {
+			for _, in := range b.Instrs {
+				ci, isCI := in.(ssa.CallInstruction)
+				if !isCI {
+					continue
+				}
+				g := ci.Common().StaticCallee()
+				if g == nil || !inModule(g) {
+					continue
+				}
+				for _, r := range p.CG().Reachable([]*ssa.Function{origin(g)}, func(f *ssa.Function) bool { return !inModule(f) }) {
+					if pdf != nil && origin(r) == origin(pdf) {
+						persist = in
+					}
+				}
+			}
 		}
 		ok := persist != nil
 		if ok {
